@@ -69,7 +69,10 @@ def _api_scenario(draw, gen: int):
     return {"mode": "api", "inst": inst, "state": state, "script": script, "behaviour": beh, "losses": sorted(losses),
             "inst2": inst2, "state2": state2, "reinit": draw(st.booleans()),
             # seconds a TCP close takes to complete: shutdown()'s own close then spans scenario events (heartbeat ticks ...)
-            "close_latency": draw(st.sampled_from([0.0, 0.0, 0.125, 1.0]))}
+            "close_latency": draw(st.sampled_from([0.0, 0.0, 0.125, 1.0])),
+            # instant from which the console stops reading (back-pressure: the client's next write is taken, its drain()
+            # then blocks - e.g. the periodic heartbeat request), or None
+            "stall": draw(st.one_of(st.none(), st.none(), st.sampled_from([3.0, 150.0, 299.0, 299.0, 599.0])))}
 
 
 @st.composite
@@ -90,6 +93,13 @@ def _mk_api(case):
             rig.net.script.append(("accept", lat))
             tr.peer_reset()
     handles = [rig.loop.call_at(t, lose, k, lat) for t, k, lat in case["losses"]]
+
+    def stall():
+        tr = rig.net.current
+        if tr is not None and tr.alive:
+            tr.pause_after = 1
+    if case.get("stall") is not None:
+        handles.append(rig.loop.call_at(case["stall"], stall))
     return rig, handles
 
 
